@@ -3,6 +3,7 @@
 -/
 import YangVerif.Proofs.Data
 import YangVerif.Props.C03
+import YangVerif.Model.EntryKey
 set_option linter.unusedSimpArgs false
 namespace YangVerif.C18
 open YangVerif.Data
@@ -88,6 +89,98 @@ theorem indexed_by_own_key (rows : List (Key × List Data)) (k : Key) (b : List 
         exact h.1 (List.mem_map.2 ⟨(k', b), hm', rfl⟩)
       simp only [hne, if_false]
       exact ih (by simpa [keysOf] using h.2) hm'
+
+/-! #### edits addressed at an entry -/
+
+/-- the merge of a document that passed the guard keeps the key leaves -/
+theorem merge_keeps_key (k : Key) : ∀ (ks : List Schema) (doc body : List Data),
+    leadingLeaves k.length ks = true → shownKey k.length body = some k → keepsKey k doc = true →
+    shownKey k.length (mergeKids ks doc body) = some k := by
+  induction k with
+  | nil => intro ks doc body _ _ _; simp [shownKey]
+  | cons kv kr ih =>
+    intro ks doc body hs hb hk
+    cases ks with
+    | nil => simp [leadingLeaves] at hs
+    | cons s sr =>
+      cases s with
+      | cont c => simp [leadingLeaves] at hs
+      | list n c => simp [leadingLeaves] at hs
+      | leaf dflt =>
+        have hs' : leadingLeaves kr.length sr = true := by simpa [leadingLeaves] using hs
+        cases body with
+        | nil => simp [shownKey] at hb
+        | cons bd br =>
+          cases bd with
+          | cont c => simp [shownKey] at hb
+          | list rows => simp [shownKey] at hb
+          | leaf bo =>
+            cases bo with
+            | none => simp [shownKey] at hb
+            | some bv =>
+              simp only [List.length_cons, shownKey, Option.map_eq_some_iff] at hb
+              obtain ⟨kr', hbr, hkr⟩ := hb
+              have hbv : bv = kv := (List.cons.inj hkr).1
+              have hkr' : kr' = kr := (List.cons.inj hkr).2
+              subst hbv; subst hkr'
+              cases doc with
+              | nil => simp [mergeKids, shownKey, hbr]
+              | cons d dr =>
+                cases d with
+                | leaf o =>
+                  cases o with
+                  | some v =>
+                    simp only [keepsKey, Bool.and_eq_true, beq_iff_eq] at hk
+                    simp [mergeKids, merge, shownKey, ih sr dr br hs' hbr hk.2, hk.1]
+                  | none =>
+                    simp only [keepsKey] at hk
+                    simp [mergeKids, merge, shownKey, ih sr dr br hs' hbr hk]
+                | cont c =>
+                  simp only [keepsKey] at hk
+                  simp [mergeKids, merge, shownKey, ih sr dr br hs' hbr hk]
+                | list rows =>
+                  simp only [keepsKey] at hk
+                  simp [mergeKids, merge, shownKey, ih sr dr br hs' hbr hk]
+
+/-- **an accepted edit of an entry leaves it showing the key it is filed under**: whatever the document
+    holds in its key leaves, if the guard lets it through the merged body shows `k` again -/
+theorem entry_edit_keeps_key (k : Key) (ks : List Schema) (doc body b' : List Data)
+    (hs : leadingLeaves k.length ks = true) (hb : shownKey k.length body = some k)
+    (he : editEntry ks k doc body = .ok b') : shownKey k.length b' = some k := by
+  unfold editEntry at he
+  split at he
+  · rename_i hk
+    injection he with he; subst he
+    exact merge_keeps_key k ks doc body hs hb hk
+  · cases he
+
+/-- **a document that names another key is refused**, wherever in the key the difference is -/
+theorem entry_edit_other_key_refused (ks : List Schema) (pre post : Key) (kv v : Val) (dpre dpost body : List Data)
+    (hl : dpre.length = pre.length) (hne : v ≠ kv) :
+    editEntry ks (pre ++ kv :: post) (dpre ++ .leaf (some v) :: dpost) body = .error .conflict := by
+  have : keepsKey (pre ++ kv :: post) (dpre ++ .leaf (some v) :: dpost) = false := by
+    induction pre generalizing dpre with
+    | nil =>
+      cases dpre with
+      | nil => simp [keepsKey, hne]
+      | cons _ _ => simp at hl
+    | cons p pr ih =>
+      cases dpre with
+      | nil => simp at hl
+      | cons d dr =>
+        have hl' : dr.length = pr.length := by simpa using hl
+        cases d with
+        | leaf o => cases o <;> simp [keepsKey, ih dr hl']
+        | cont c => simp [keepsKey, ih dr hl']
+        | list rows => simp [keepsKey, ih dr hl']
+  simp [editEntry, this]
+
+example : editEntry [.leaf none, .leaf none] ["a"] [.leaf (some "b")] [.leaf (some "a"), .leaf (some "1")] = .error .conflict := by
+  simp [editEntry, keepsKey]
+example : editEntry [.leaf none, .leaf none] ["a"] [.leaf none, .leaf (some "9")] [.leaf (some "a"), .leaf (some "1")] =
+    .ok [.leaf (some "a"), .leaf (some "9")] := by
+  simp [editEntry, keepsKey, mergeKids, merge]
+example : leadingLeaves 1 [.leaf none, .leaf none] = true ∧ shownKey 1 [.leaf (some "a"), .leaf (some "1")] = some ["a"] := by decide
 
 /-! #### non-vacuity -/
 example : Data.Inv C03.exSchema C03.exTgt := by unfold Data.Inv; decide
